@@ -1371,7 +1371,7 @@ def infeasible(rng, n):
         cont = p.add_task("box") if rng.random() < 0.4 else None
         for k in range(nt):
             kind = rng.choice(["plain", "plain", "never", "zero", "huge", "noalloc", "late", "early_end", "late_end", "ms", "group", "preleave",
-                               "alt_never", "alt_huge", "alt_late", "room", "room_alt", "alt_room", "room_team"])
+                               "alt_never", "alt_huge", "alt_late", "room", "room_alt", "alt_room", "room_team", "inverted", "span"])
             kw = dict(effort=G * rng.randint(1, 9), alloc=[rng.choice(rs)])
             if kind == "never":
                 kw["alloc"] = [never]
@@ -1416,6 +1416,12 @@ def infeasible(rng, n):
                     kw["flags"] = ["contiguous"] if False else []
             elif kind == "ms":
                 kw = dict(effort=0, alloc=[], milestone=True)
+            elif kind == "inverted":       # both dates given, the end before the start: no schedule has start <= end
+                a = start + timedelta(hours=rng.choice([30, 60]))
+                kw = dict(effort=0, alloc=[], start=a, end=a - timedelta(hours=rng.choice([1, 20])))
+            elif kind == "span":           # both dates given in order: a fixed period
+                a = start + timedelta(hours=rng.choice([9, 33]))
+                kw = dict(effort=0, alloc=[], start=a, end=a + timedelta(hours=rng.choice([0, 2, 30])))
             elif kind == "group":
                 kw["alloc"] = [grp]
             t = p.add_task("t%d" % k, parent=cont if (cont and rng.random() < 0.5) else None, **kw)
@@ -1749,4 +1755,38 @@ def dst_weekend(rng, n):
                 if not any(d[0] is t for u in ts for d in u.deps):
                     t.end = (sw + timedelta(days=rng.randint(1, 3))).replace(hour=rng.choice([0, 12]), minute=0, second=0, microsecond=0)
         out.append(("dst%04d" % i, p))
+    return out
+
+
+def repeated_statements(k):
+    """C11 (cost proportional to size): one statement kind written k times in one property; the caller runs each kind
+    at k and 2k and compares the cost.  Returns [(kind, text)]; every text is an ordinary, schedulable project."""
+    head = 'project p "P" 2025-01-06 +6m {\n  timezone "UTC"\n%s}\n'
+    day = lambda i: (datetime(2025, 2, 1) + timedelta(days=2 * i)).strftime("%Y-%m-%d")
+    rep = lambda f: "".join(f(i) for i in range(k))
+    work = 'task w "W" { effort 5d allocate r1 }\n'
+    out = []
+    out.append(("res_vacation", head % "" + 'resource r1 "R1" {\n' + rep(lambda i: "  vacation %s\n" % day(i)) + "}\n" + work))
+    out.append(("res_leaves", head % "" + 'resource r1 "R1" {\n' + rep(lambda i: "  leaves annual %s\n" % day(i)) + "}\n" + work))
+    out.append(("res_booking", head % "" + 'resource r1 "R1" {\n' + rep(lambda i: '  booking "b%d" %s-10:00 +1h\n' % (i, day(i))) + "}\n" + work))
+    out.append(("res_hours", head % "" + 'resource r1 "R1" {\n' + rep(lambda i: "  workinghours %s 0%d:00 - 1%d:00\n" % (DAYS[i % 5], 7 + i % 3, 5 + i % 3)) + "}\n" + work))
+    out.append(("res_limits", head % "" + 'resource r1 "R1" {\n' + rep(lambda i: "  limits { dailymax %dh }\n" % (4 + i % 4)) + "}\n" + work))
+    out.append(("res_flags", head % "" + "flags " + ", ".join("f%d" % i for i in range(k)) + "\n" + 'resource r1 "R1" {\n' + rep(lambda i: "  flags f%d\n" % i) + "}\n" + work))
+    out.append(("grp_member_leaves", head % "" + 'resource g "G" {\n' + rep(lambda i: "  leaves annual %s\n" % day(i)) + '  resource r1 "R1" {\n' + rep(lambda i: "    vacation %s\n" % day(i + 1)) + "  }\n}\n" + work))
+    out.append(("proj_leaves", head % "" + rep(lambda i: 'leaves holiday "h%d" %s\n' % (i, day(i))) + 'resource r1 "R1" {}\n' + work))
+    out.append(("glob_vacation", head % "" + rep(lambda i: 'vacation "v%d" %s\n' % (i, day(i))) + 'resource r1 "R1" {}\n' + work))
+    out.append(("shifts", head % "" + rep(lambda i: 'shift s%d "S%d" {\n  workinghours mon - fri 0%d:00 - 1%d:00\n}\n' % (i, i, 7 + i % 3, 5 + i % 3)) + 'resource r1 "R1" {\n  workinghours s0\n}\n' + work))
+    out.append(("task_precedes_one", head % "" + 'resource r1 "R1" {}\n' + rep(lambda i: 'task a%d "A" { duration 1d precedes tgt }\n' % i) + 'task tgt "T" { effort 1d allocate r1 }\n'))
+    out.append(("task_depends_many", head % "" + 'resource r1 "R1" {}\n' + rep(lambda i: 'task a%d "A" { duration 1d }\n' % i) + 'task tgt "T" {\n  effort 1d\n  allocate r1\n' + rep(lambda i: "  depends a%d\n" % i) + "}\n"))
+    out.append(("task_depends_list", head % "" + 'resource r1 "R1" {}\n' + rep(lambda i: 'task a%d "A" { duration 1d }\n' % i) + 'task tgt "T" {\n  effort 1d\n  allocate r1\n  depends ' + ", ".join("a%d" % i for i in range(k)) + "\n}\n"))
+    out.append(("task_allocate_many", head % "" + rep(lambda i: 'resource r%d "R" {}\n' % i) + 'task tgt "T" {\n  effort 40d\n' + rep(lambda i: "  allocate r%d\n" % i) + "}\n"))
+    out.append(("task_alternatives", head % "" + rep(lambda i: 'resource r%d "R" {}\n' % i) + 'task tgt "T" {\n  effort 10d\n  allocate r0 { alternative ' + ", ".join("r%d" % i for i in range(1, max(2, k))) + " }\n}\n"))
+    out.append(("task_limits", head % "" + 'resource r1 "R1" {}\ntask tgt "T" {\n  effort 5d\n  allocate r1\n' + rep(lambda i: "  limits { dailymax %dh }\n" % (4 + i % 4)) + "}\n"))
+    out.append(("task_flags", head % "" + "flags " + ", ".join("f%d" % i for i in range(k)) + '\nresource r1 "R1" {}\ntask tgt "T" {\n  effort 5d\n  allocate r1\n' + rep(lambda i: "  flags f%d\n" % i) + "}\n"))
+    out.append(("nested_containers", head % "" + 'resource r1 "R1" {}\n' + rep(lambda i: "  " * i + 'task c%d "C" {\n' % i) + "  " * k + 'task leaf "L" { effort 2d allocate r1 }\n' + "".join("  " * (k - 1 - i) + "}\n" for i in range(k))))
+    out.append(("nested_groups", head % "" + rep(lambda i: "  " * i + 'resource g%d "G" {\n' % i) + "  " * k + 'resource r1 "R1" {}\n' + "".join("  " * (k - 1 - i) + "}\n" for i in range(k)) + work))
+    out.append(("scenarios_flat", head % ('  scenario plan "Plan" {\n' + rep(lambda i: '    scenario s%d "S"\n' % i) + "  }\n") + 'resource r1 "R1" {}\n' + work))
+    out.append(("reports", head % "" + 'resource r1 "R1" {}\n' + work + rep(lambda i: 'taskreport rep%d "rep%d" {\n  formats csv\n  columns id, start, end\n}\n' % (i, i))))
+    out.append(("accounts_chargesets", head % "" + rep(lambda i: 'account acc%d "A"\n' % i) + 'resource r1 "R1" { rate 100 }\ntask tgt "T" {\n  effort 5d\n  allocate r1\n' + rep(lambda i: "  chargeset acc%d\n" % i) + "}\n"))
+    out.append(("macros", rep(lambda i: "macro m%d [ %s ]\n" % (i, "${m%d}" % (i - 1) if i else "5d")) + head % "" + 'resource r1 "R1" {}\ntask w "W" { effort ${m%d} allocate r1 }\n' % (k - 1)))
     return out
